@@ -226,6 +226,9 @@ pub struct C01Mon {
     pub tokens_seen: u64,
     pub min_idle_initiated_bits: f64,
     pub min_idle_reply_bits: f64,
+    /// (address, time in bus units) of every set_online(): a station's silence time-out cannot have
+    /// started before it began to listen
+    pub online_since: Vec<(u8, i64)>,
 }
 
 #[derive(Clone)]
@@ -379,6 +382,7 @@ impl W3Run {
                         self.crashed[i] = false;
                         self.stations[i] = FdlActiveStation::new(self.cfg.params(sc.addr));
                         self.stations[i].set_online();
+                        { let u = t * self.bus.rate; self.c01.online_since.retain(|(a, _)| *a != sc.addr); self.c01.online_since.push((sc.addr, u)); }
                         self.bus.flush_port(i as u8, t);
                     }
                     _ => {
@@ -395,6 +399,7 @@ impl W3Run {
                     self.crashed[i] = false;
                     self.stations[i] = FdlActiveStation::new(self.cfg.params(sc.addr));
                     self.stations[i].set_online();
+                    { let u = t * self.bus.rate; self.c01.online_since.retain(|(a, _)| *a != sc.addr); self.c01.online_since.push((sc.addr, u)); }
                     self.bus.flush_port(i as u8, t);
                 }
                 _ => return (i, false),
@@ -403,6 +408,7 @@ impl W3Run {
         if !self.online[i] {
             if t >= sc.join_us {
                 self.stations[i].set_online();
+                { let u = t * self.bus.rate; self.c01.online_since.retain(|(a, _)| *a != sc.addr); self.c01.online_since.push((sc.addr, u)); }
                 self.bus.flush_port(i as u8, t);
                 self.online[i] = true;
             } else {
@@ -552,7 +558,8 @@ impl W3Run {
         }
         // R3 permission
         if !is_reply {
-            let silence = m.prev.as_ref().map(|p| tx.start - p.3).unwrap_or(i64::MAX / 2);
+            let listening_since = m.online_since.iter().find(|(x, _)| *x == a).map(|(_, u)| *u).unwrap_or(0);
+            let silence = tx.start - m.prev.as_ref().map(|p| p.3).unwrap_or(i64::MIN / 2).max(listening_since);
             let mut ok = m.holder == Some(a);
             if !ok {
                 // the passer again when Tslot passed in silence after its pass
